@@ -51,6 +51,12 @@ def generate(seed, tier):
     if rng.random() < 0.4:
         tb.append(model.clone(rng.choice(tb)))
         tb[-1]["sid"] = tb[-2]["sid"] + 1
+    if rng.random() < 0.35:
+        # the same rules with other linearizations / fan-outs (same vertical contexts)
+        for x in rng.sample(tb, min(len(tb), rng.choice([1, 2]))):
+            g = model.gap_twin(rng, x, sid=tb[-1]["sid"] + 1)
+            if g is not None:
+                tb.insert(rng.randrange(len(tb) + 1), g)
     if rng.random() < 0.15:
         # a tree that is a single token: its tag is a tree root and a lexicon entry
         tb.insert(rng.randrange(len(tb) + 1), model.token_tree(rng, k, sid=900))
